@@ -126,7 +126,10 @@ def make_block(letter, aid, k, geom="hex"):
                                           lengthOuter=16.0, widthInner=15.6, lengthInner=15.6, mult=1))
     for c in comps:
         b.add(c)
-    b.setHeight(HEIGHTS[letter])
+    b.p.axMesh = 1  # as blueprints do (axial mesh points per block, read by Core.processLoading)
+    # grid plates are not all of one height (every second assembly's plate is 1 cm shorter): exchanging stationary
+    # blocks that end at different elevations is legal (armi logs a warning), and must not disturb anything else
+    b.setHeight(HEIGHTS[letter] - (1.0 if letter == "G" and aid % 2 == 0 else 0.0))
     if letter == "F":
         # a per-block U235 content so number densities differ between otherwise identical fuel blocks
         fuel = comps[0]
@@ -207,9 +210,6 @@ def build_core(layout, fresh, places, n_locs, track=True, stationary=(), geom="h
         # location order, whatever order they were added in.  Location INDICES are abstract, so the cells are handed
         # out such that assembly k (k-th to be added, number k-1) is also the k-th of the loaded, sorted core.
         locs = _db_cells(core, locs, [places[aid] for aid in sorted(layout)], n_locs)
-    core._trackAssems = bool(track)
-    core.stationaryBlockFlagsList = flags_for(stationary)
-
     sfp = SpentFuelPool("Spent Fuel Pool")
     sfp.spatialGrid = grids.CartesianGrid.fromRectangle(50.0, 50.0)
     sfp.spatialGrid.armiObject = sfp
@@ -238,6 +238,10 @@ def build_core(layout, fresh, places, n_locs, track=True, stationary=(), geom="h
         for k, b in enumerate(a, start=1):
             w.blk[(aid, k)] = b
         sfp.add(a)  # no locator: the pool's own col/row filling
+    # the case settings reach the core the way they do in a case: Core.processLoading(cs) reads trackAssems (via
+    # setOptionsFromCs) and stationaryBlockFlags (the setting's default when the case does not mention it, [] = no
+    # block is designated to stay)
+    core.processLoading(_settings(track, stationary))
     if db_file is not None:
         from armi.bookkeeping.db.database import Database
 
@@ -285,9 +289,10 @@ def _settings(track, stationary):
         from armi import settings
 
         names = {"G": "GRID_PLATE", "F": "FUEL", "P": "PLENUM", "S": "AXIAL SHIELD"}
-        _CS[key] = settings.Settings().modified(newSettings={
-            "trackAssems": bool(track), "stationaryBlockFlags": [names[x] for x in stationary],
-            "detailedAxialExpansion": True})
+        new = {"trackAssems": bool(track), "detailedAxialExpansion": True}
+        if tuple(stationary) != ("G",):  # ("G",) is the setting's default: such a case does not mention the setting
+            new["stationaryBlockFlags"] = [names[x] for x in stationary]
+        _CS[key] = settings.Settings().modified(newSettings=new)
     return _CS[key]
 
 
@@ -323,8 +328,6 @@ def _load_world(db_file, layout, pooled, fresh, places, n_locs, track, stationar
         db.close()
     w = World()
     w.r, w.core, w.sfp = r, r.core, r.excore["sfp"]
-    w.core._trackAssems = bool(track)
-    w.core.stationaryBlockFlagsList = flags_for(stationary)
     with open(db_file + ".json") as f:
         locs = [tuple(x) for x in json.load(f)["locs"]]
     w.locs = locs
